@@ -9,6 +9,7 @@ CONSTANTS MaxAtom = 2
  InitSlotsOnCopy = TRUE
  RestoreCacheOnAbort = FALSE
  FullFlushOnSpecialDelete = TRUE
+ PackMemoised = FALSE
  Elems <- SmallElems
  Orders <- SmallOrders
  Charges <- SmallCharges
